@@ -1,13 +1,17 @@
 #!/usr/bin/env bash
 # Regression run of the sub-agent-seeded changes: apply each /verif/seeded/<ID>-<X>/patch.diff to /repo, run the target
-# property's quick check (for C01-C: C15), undo it, and report any that is no longer caught.
+# property's quick check (for a few, the owning check named below), undo it, and report any that is no longer caught.
 # usage: tools/run_seeded.sh [name-substring]
 here="$(cd "$(dirname "$0")/.." && pwd)"
 miss=0; n=0
 for d in "$here"/seeded/*/; do
   name="$(basename "$d")"
   [ -n "${1:-}" ] && [[ "$name" != *"$1"* ]] && continue
-  id="${name%%-*}"; [ "$name" = "C01-C" ] && id=C15
+  id="${name%%-*}"
+  # changes whose fault lies outside what their nominal property observes: the owning check is the one that must catch them
+  case "$name" in C01-C|C02-G|C02-H) id=C15;; C19-G) id=C14;; esac
+  # C13-G violates no listed property (DESIGN 7.2 item 3): recorded, not expected to be caught
+  if [ "$name" = "C13-G" ]; then echo "skip $name (violates no listed property)"; continue; fi
   res=$("$here/tools/try_patch.sh" "$d/patch.diff" "$id" 2>&1 | tail -1)
   n=$((n+1))
   case "$res" in *"CAUGHT BY: $id"*) echo "ok   $name ($id)";; *) echo "MISS $name: $res"; miss=$((miss+1));; esac
